@@ -166,10 +166,19 @@ func (run *Run) evaluate(ff *FindingsFile, floors []Floor) outcome {
 	}
 	for _, fl := range floors {
 		r := byRule[fl.Rule]
-		if r == nil {
-			continue
+		n := 0
+		if r != nil {
+			n = r.Instances[fl.What]
 		}
-		n := r.Instances[fl.What]
+		// the same rule may have been applied to several parts of the program: the counts add up
+		if r != nil {
+			n = 0
+			for _, q := range run.Results {
+				if q.Rule == fl.Rule {
+					n += q.Instances[fl.What]
+				}
+			}
+		}
 		o.total++
 		if n < fl.Min {
 			o.violations = append(o.violations, Obligation{Rule: fl.Rule, Key: fl.Rule + "/floor/" + fl.What, Status: Undecided,
@@ -368,5 +377,18 @@ func (r *RuleResult) Merge(other *RuleResult, prefix string) {
 	for _, ob := range other.Obls {
 		ob.Key = r.Rule + "/" + prefix + ob.Key[len(other.Rule)+1:]
 		r.Obls = append(r.Obls, ob)
+	}
+}
+
+// Rename gives the result (and the obligations it holds) another rule name: the same analysis applied to
+// another part of the program, with its own floors.
+func (r *RuleResult) Rename(rule string) {
+	old := r.Rule
+	r.Rule = rule
+	for i := range r.Obls {
+		r.Obls[i].Rule = rule
+		if len(r.Obls[i].Key) > len(old) && r.Obls[i].Key[:len(old)+1] == old+"/" {
+			r.Obls[i].Key = rule + r.Obls[i].Key[len(old):]
+		}
 	}
 }
